@@ -29,9 +29,9 @@ def depth_verdict(tmpls):
     d = 0
     for t in tmpls:
         for it in TEMPLATES[t]:
-            if it == 'S':
+            if it in ('S', 'B'):
                 d += 1
-            elif it in ('E', 'W'):
+            elif it in ('E', 'W', 'X'):
                 d -= 1
                 if d < 0:
                     return 'err'
@@ -202,12 +202,16 @@ def repr_bytes(I, v, depth=0):
 # ------------------------------------------------------------------ replay
 
 def materialize_seq(texts):
-    """A .js file whose block comments carry the given (normalised) comment texts."""
-    out = ''
+    """A .js file whose comments carry the given (normalised) comment texts: the two leading blanks
+    stand for the delimiter.  Texts that must end exactly at the tag become `//` line comments."""
+    out = b''
     for i, t in enumerate(texts):
-        body = t[2:-2] if len(t) >= 4 else t
-        out += '/*' + body + '*/\ncode%d();\n' % i
-    return out.encode('latin1')
+        tb = t.encode('utf-8') if isinstance(t, str) else t
+        if tb.endswith(b'  ') and b'\n' in tb or tb.endswith(b'  '):
+            out += b'/*' + tb[2:-2] + b'*/\ncode%d();\n' % i
+        else:
+            out += b'//' + tb[2:] + b'\ncode%d();\n' % i
+    return out
 
 
 def confirm(binary, v, idx):
@@ -224,6 +228,8 @@ def confirm(binary, v, idx):
         v['observed'] = dict(code=r['code'], stderr=r['stderr'][-300:])
         bad = r['code'] != 0
         want = 'exit 0'
+    elif v['role'] == 'panic':
+        return confirm_panic(binary, v, idx, PROP)
     else:
         return v
     if bad:
@@ -232,14 +238,28 @@ def confirm(binary, v, idx):
     return v
 
 
+def confirm_panic(binary, v, idx, prop):
+    """A panic outcome in the pairing / tag scanner: does the real binary crash on the materialised comments?"""
+    v['confirmed'] = False
+    if 'texts' not in v:
+        return v
+    files = {'p.js': materialize_seq(v['texts'])}
+    r = run_scan(binary, files, ['**'], extra_args=['list'])
+    v['observed'] = dict(code=r['code'], stderr=r['stderr'][-300:])
+    if r['code'] not in (0, 1) or 'panicked' in r['stderr']:
+        v['confirmed'] = True
+        v['replay'] = save_replay(prop, 'panic-%d' % idx, files, "list '**'", 'expected exit 0/1 without a panic; ' + v['summary'], v)
+    return v
+
+
 BOUNDS = {
-    'quick': dict(max_comments=3, tmpls=['S', 'E', 'SE', 'nS', 'ES', 'Snt', 'nE', 'SS', 'W'], sample=300, validate=20),
+    'quick': dict(max_comments=3, tmpls=['S', 'E', 'SE', 'nS', 'ES', 'Snt', 'nE', 'SS', 'W', 'XB$', 'uS', 'uE'], sample=420, validate=20),
     'thorough': dict(max_comments=4, tmpls=list(TEMPLATES.keys()), sample=4000, validate=80),
 }
 
 
 def events_in(seq):
-    return sum(1 for t in seq for it in TEMPLATES[t] if it in 'SEW')
+    return sum(1 for t in seq for it in TEMPLATES[t] if it in 'SEWBX')
 
 
 def main(tier):
